@@ -15,9 +15,11 @@ pub mod c10;
 pub mod c11;
 pub mod c12;
 pub mod c13;
+pub mod c14;
 pub mod c15;
 pub mod c16;
 pub mod c17;
+pub mod c18;
 pub mod refcmp;
 
 pub fn spaces(prop: &str, tier: Tier) -> Vec<Box<dyn Space>> {
@@ -35,9 +37,11 @@ pub fn spaces(prop: &str, tier: Tier) -> Vec<Box<dyn Space>> {
         "C11" => c11::spaces(tier),
         "C12" => c12::spaces(tier),
         "C13" => c13::spaces(tier),
+        "C14" => c14::spaces(tier),
         "C15" => c15::spaces(tier),
         "C16" => c16::spaces(tier),
         "C17" => c17::spaces(tier),
+        "C18" => c18::spaces(tier),
         _ => Vec::new(),
     }
 }
@@ -57,9 +61,11 @@ pub fn meta(prop: &str, tier: Tier) -> PropMeta {
         "C11" => c11::meta(tier),
         "C12" => c12::meta(tier),
         "C13" => c13::meta(tier),
+        "C14" => c14::meta(tier),
         "C15" => c15::meta(tier),
         "C16" => c16::meta(tier),
         "C17" => c17::meta(tier),
+        "C18" => c18::meta(tier),
         _ => PropMeta {
             id: "?",
             level: "exploration",
